@@ -274,7 +274,7 @@ func runC03(p *core.Prog, r *core.Result) {
 	r.Decided = []string{
 		"R3.1 a record is replaced atomically: encoded into a temporary file in the build-state temp directory (same tree as the records), closed, then renamed onto the path derived from the label; each step on the nil-error edge of the previous one",
 		"R3.2 who may write build state: the set of file-system mutators in package dawn whose path derives from the state directory is exactly {saveTargetInfo: MkdirAll, CreateTemp, Rename; saveIndex: Create; load: MkdirAll(temp); GC: RemoveAll}",
-		"R3.3 when the body fails the record written carries Rerun=true and no stamp",
+		"R3.3 when the body fails the record written is built with Rerun=true (in place or through a constructor helper)",
 		"R3.4 the success record is written only after the body returned without error; nothing is recorded before the body runs",
 		"R3.5 a failing index load falls back to a full load; a failing index write cannot fail a load",
 		"R3.6 the build and watch commands never load from the index; Reload never does",
@@ -530,11 +530,15 @@ func runC03(p *core.Prog, r *core.Result) {
 func checkRecordWrites(p *core.Prog, r *core.Result, m *evalModel, ruleFail, ruleOK string) {
 	evalErr := extractOf(m.Evaluate, 2)
 	nFail, nOK := 0, 0
-	for i, s := range m.Saves {
-		lit := m.savedLiteral(s)
+	for i, w := range m.recordWrites() {
+		s, lit := w.Site, w.Lit
 		nn, known := p.FactsAt(s).ErrNonNil(evalErr)
 		construct := fmt.Sprintf("dawn.(*runTarget).Evaluate#record-write-%d", i+1)
 		if !core.Dominates(m.Evaluate, s) {
+			if rr, okc := core.ConstBool(lit.Fields["Rerun"]); okc && rr && (len(lit.Whole) == 0 || lit.After["Rerun"]) {
+				r.OK(ruleFail, construct+":early-failure-record", p.InstrPos(s), "a record written before the body is built with Rerun=true: it can only force a re-run")
+				continue
+			}
 			r.Bad(ruleOK, construct, p.InstrPos(s), "a record is written before the body has run: a crash inside the body leaves a record that claims the target is up to date")
 			continue
 		}
@@ -542,12 +546,15 @@ func checkRecordWrites(p *core.Prog, r *core.Result, m *evalModel, ruleFail, rul
 		case known && nn:
 			nFail++
 			rr, okc := core.ConstBool(lit.Fields["Rerun"])
-			_, hasData := lit.Fields["Data"]
-			r.Check(okc && rr && !hasData, ruleFail, construct+":failure-record", p.InstrPos(s), "the failure record has Rerun=true and no stamp", "the record written when the body fails does not force a re-run (Rerun=true, no stamp): the failed target is remembered as up to date")
+			r.Check(okc && rr && (len(lit.Whole) == 0 || lit.After["Rerun"]), ruleFail, construct+":failure-record", p.InstrPos(s), "the failure record is built with Rerun=true", "the record written when the body fails does not force a re-run (Rerun is not the constant true): the failed target is remembered as up to date")
 		case known && !nn:
 			nOK++
 			_, hasRerun := lit.Fields["Rerun"]
 			_, hasData := lit.Fields["Data"]
+			if len(lit.Whole) != 0 {
+				r.Unk(ruleOK, construct+":success-record", p.InstrPos(s), "the success record starts from a copy of another record: whether it carries a pending re-run is not decided")
+				continue
+			}
 			r.Check(!hasRerun && hasData, ruleOK, construct+":success-record", p.InstrPos(s), "the success record is written on the nil-error edge of the body, with a stamp and without Rerun", "the success record lacks a stamp or carries Rerun")
 		default:
 			r.Bad(ruleOK, construct, p.InstrPos(s), "a record is written on a path where it is not known whether the body succeeded")
